@@ -436,6 +436,7 @@ package mysql
 //@   mode bv
 //@   requires len(data) < 1<<40
 //@   may-panic when true
+//@   assigns \nothing
 //@   ensures case grows:    ret1 == nil ==> len(ret0) >= len(data)
 //@   ensures case prefix:   ret1 == nil ==> forall(k, 0, len(data), ret0[k] == old(data[k]))
 //@   ensures case tiny:     intKind(value) && fieldType == TypeTiny ==> ret1 == nil && len(ret0) == len(data) + 1 && uint64(ret0[len(data)]) == u64of(value) & 0xff
